@@ -85,6 +85,14 @@ func guard(f func() string) (out string) {
 
 var commands = map[string]func(*Ctx){}
 
+// repoRoot: the repository under test (VERIF_REPO, default /repo).
+func repoRoot() string {
+	if v := os.Getenv("VERIF_REPO"); v != "" {
+		return v
+	}
+	return "/repo"
+}
+
 func main() {
 	if len(os.Args) < 2 {
 		fmt.Fprintln(os.Stderr, "usage: hv <property> [-seed S] [-n N] [-tier T] [-out DIR] [-replay FILE]")
